@@ -206,6 +206,58 @@ pub fn delta_chain(ctx: &mut Ctx) {
         for (lname, limit) in limits_for(&mut rng, serials.len()) {
             check_chain(ctx, class, &serials, lname, limit, notif_with(&serials));
         }
+        // the same question after a history of calls on the same value: what came before must not
+        // matter. After every step the model is re-read from `deltas()`, so nothing is assumed about
+        // what a call leaves behind except what the accessor shows.
+        if !serials.is_empty() {
+            let mut nf = notif_with(&serials);
+            let steps = 1 + rng.below(4);
+            let mut names: Vec<&'static str> = Vec::new();
+            for _ in 0..steps {
+                let name = match rng.below(6) {
+                    0 | 1 => {
+                        nf.sort_deltas();
+                        "sort"
+                    }
+                    2 | 3 => {
+                        nf.reverse_sort_deltas();
+                        "reverse-sort"
+                    }
+                    4 => {
+                        let _ = catch(|| nf.sort_and_verify_deltas(None));
+                        "verify-none"
+                    }
+                    _ => {
+                        nf = nf.clone();
+                        "clone"
+                    }
+                };
+                names.push(name);
+            }
+            let now: Vec<u64> = nf.deltas().iter().map(|d| d.serial()).collect();
+            let mut a = now.clone();
+            let mut b = serials.clone();
+            a.sort_unstable();
+            b.sort_unstable();
+            if a != b {
+                ctx.obs("chain_history_changed_the_multiset", 1);
+            }
+            let hist = names.join(",");
+            // only the kinds of step, not their order, name the evidence class
+            let mut kinds = names.clone();
+            kinds.sort_unstable();
+            kinds.dedup();
+            let class_h = format!("{} after [{}]", class, kinds.join(" "));
+            for (lname, limit) in limits_for(&mut rng, now.len()).into_iter().take(4) {
+                let before = ctx.violation_count();
+                check_chain(ctx, &class_h, &now, lname, limit, nf.clone());
+                if ctx.violation_count() > before {
+                    ctx.obs("chain_violations_after_a_history", 1);
+                    ctx.sample("delta-chain-history", || json!({"history": hist, "serials_before": serials.iter().take(24).map(|s| s.to_string()).collect::<Vec<_>>(), "serials_seen_through_deltas()": now.iter().take(24).map(|s| s.to_string()).collect::<Vec<_>>()}));
+                }
+            }
+            ctx.obs("chain_checks_after_a_history", 1);
+        }
         if i == 0 {
             ctx.sample("delta-chain", || {
                 let (w, r) = model_chain(&serials, Some(2));
